@@ -49,6 +49,10 @@ func Continuation(horizon int) func(c *sim.Cluster) *common.Violation {
 		}
 		c.B = sim.Budget{Reorders: -1, Deviations: -1}
 		c.Stagger = true
+		// no further faults: a crash that was armed but has not fired yet is called off
+		for k := range c.Armed {
+			delete(c.Armed, k)
+		}
 		if err := c.Apply(sim.Event{K: "heal"}); err != nil {
 			return nil
 		}
